@@ -170,6 +170,9 @@ func (fx *Fx) ctxMethod(st *State, recv string, meth string, sig *types.Signatur
 		}
 		st.assume(implies(app("select", g.X, recv), not(app("=", r.X, "nil"))))
 		fx.older(st, r.X)
+		// ghost: the length of the call trace when the context's error was last read (lastctxerr() in contracts):
+		// Err() changes over time, so "judged against the error as it is after X" is a statement about this position
+		st.ghost["ctxerrat"] = Val{T: types.Typ[types.Int], S: SInt, X: fx.trCount(st)}
 		return []Val{r}, true
 	}
 	return nil, false
